@@ -172,3 +172,25 @@ def delete_get(d: 'Tree', p: 'Path', dflt: 'Tree'):
         delete_get(child(d, p[0]), p[1:], dflt)
 
 
+
+
+@ghost(decreases='len(p)')
+def tmk(d: 'Tree', p: 'Path') -> 'Tree':
+    """d after update_in walked p in it: missing dictionaries along p[:-1]... and p itself are created ({})"""
+    if len(p) == 0:
+        return d
+    if has(d, p[0]):
+        return tree_put(d, p[0], tmk(child(d, p[0]), p[1:]))
+    return tree_put(d, p[0], tmk(EMPTY_NODE, p[1:]))
+
+
+@ghost(decreases='len(p)')
+def walkable(d: 'Tree', p: 'Path') -> 'Bool':
+    """update_in can walk p in d: every node on the way (as far as it exists) is a dict"""
+    if len(p) == 0:
+        return True
+    if not is_node(d):
+        return False
+    if has(d, p[0]):
+        return walkable(child(d, p[0]), p[1:])
+    return True
